@@ -167,7 +167,7 @@ class ZoneAnalysis:
             if s.status == 'pre':
                 pre.append(s)
         summ = {'retlen': retlen, 'pre': pre, 'post': self._post_ok(zf), 'retlen_lb': self._retlen_lb(zf), 'retelem': self._retelem(zf),
-                'post_true': self._post_true_params(zf), 'retval': self._retval(zf)}
+                'post_true': self._post_true_params(zf), 'retval': self._retval(zf), 'post_none': self._post_none(zf)}
         self._inprog.discard(path)
         self._summ[path] = summ
         return summ
@@ -191,6 +191,48 @@ class ZoneAnalysis:
                      and not (t1[0] is None and t2[0] is None))
             common = fs if common is None else (common & fs)
         return sorted(common or [], key=str)
+
+    def _post_none(self, zf):
+        """facts over parameter symbols that hold whenever an Option-returning function returns None: a search helper
+        (`indexes.iter().copied().find(|&i| i >= count)`, or the loop form with `return Some(..)`) that found nothing"""
+        body = zf.body
+        if not body.local_ty(0).startswith('std::option::Option<'):
+            return []
+        sets = []
+        ds = [d for d in zf.fd.defs.get(0, []) if not d[2].get('dst', {}).get('p')]
+        for kind, bi, x in ds:
+            if kind == 'assign' and x['rv']['k'] == 'agg' and x['rv'].get('variant') == 'None':
+                sets.append(set(zf.facts_at(bi)))
+            elif kind == 'assign' and x['rv']['k'] == 'agg' and x['rv'].get('variant') == 'Some':
+                continue
+            elif kind == 'call':
+                l, call = None, x
+                # through copied() / cloned() / map(..) of the search result
+                for _ in range(3):
+                    if (call.get('callee') or '').endswith(('::copied', '::cloned', 'Option::<T>::map')) and call['args'] and call['args'][0]['k'] in ('copy', 'move'):
+                        o = zf._origin_call(call['args'][0]['pl']['l'])
+                        if o:
+                            call = o[1]
+                            continue
+                    break
+                if (call.get('callee') or '') in ('std::iter::Iterator::find', 'std::iter::Iterator::position') and len(call['args']) == 2 \
+                        and call['args'][1]['k'] in ('copy', 'move') and not call['args'][1]['pl'].get('p'):
+                    es = zf.elem_sym_of_iter(call['args'][0])
+                    ci = zf.fd._closure_info(call['args'][1]['pl']['l'])
+                    pr = zf.closure_predicate(ci[0], ci[1], es) if (es is not None and ci is not None) else None
+                    if pr is None:
+                        return []
+                    op, a, b, neg = pr
+                    tf, ff = zf._cmp_facts(op, a, b)
+                    sets.append(set(tf if neg else ff) | set(zf.facts_at(bi)))
+                else:
+                    return []
+            else:
+                return []
+        if not sets:
+            return []
+        common = set.intersection(*sets)
+        return sorted([(a, b) for (a, b) in common if self._param_term_ok(zf, a) and self._param_term_ok(zf, b) and not (a[0] is None and b[0] is None)], key=str)
 
     def _retval(self, zf):
         """parameter terms T with `returned integer <= T` at every return that yields one (plain usize, or the payload of Ok / Some)"""
@@ -537,7 +579,20 @@ class ZoneAnalysis:
         if s.startswith('elem:'):
             parts = s[5:].split('.')
             k = cbody.param_index(parts[0])
-            if k is None or k - 1 >= len(args) or args[k - 1]['k'] not in ('copy', 'move') or len(parts) > 1:
+            if k is None or k - 1 >= len(args) or args[k - 1]['k'] not in ('copy', 'move'):
+                return None
+            pty = cbody.local_ty(k).replace('&mut ', '').lstrip('&').strip()
+            if not pty.startswith(('[', 'std::vec::Vec<')):
+                # items of an iterator parameter: the elements of the container(s) the caller's iterator runs over
+                comps = zf.iter_components(args[k - 1])
+                if comps is None:
+                    return None
+                j = int(parts[1]) if len(parts) == 2 and parts[1].isdigit() else (0 if len(parts) == 1 and len(comps) == 1 else None)
+                if j is None or j >= len(comps) or comps[j] is None or len(parts) > 2:
+                    return None
+                es = zf.elem_sym_of_desc(comps[j])
+                return (es, c) if es is not None else None
+            if len(parts) > 1:
                 return None
             es = zf.elem_sym_of_desc(zf.desc_place(args[k - 1]['pl']))
             return (es, c) if es is not None else None
